@@ -320,6 +320,18 @@ func (vm *VM) setFromReflectValue(r int8, v reflect.Value) registerType {
 	}
 }
 
+// addressableCopy returns v or, if v is an array or a struct, an addressable
+// copy of v. It is used when a value is stored in the register of a variable,
+// that must not be an alias of the original value and must be assignable.
+func addressableCopy(v reflect.Value) reflect.Value {
+	if k := v.Kind(); k == reflect.Array || k == reflect.Struct {
+		c := reflect.New(v.Type()).Elem()
+		c.Set(v)
+		return c
+	}
+	return v
+}
+
 func appendCap(oc, nl int) int {
 	if oc == 0 || nl > oc*2 {
 		return nl
